@@ -94,12 +94,12 @@ def cases(tier, seed):
                 yield {"gen": gen, "mode": "api", "pattern": list(pat) + [0.0] * (N - k)}
                 if k <= 3:
                     yield {"gen": gen, "mode": "api", "pattern": list(pat) + [None] * (N - k)}
-    n = 150 if tier == "quick" else 8000
+    n = 150 if tier == "quick" else 40000
     delays = [0.0, 0.0, 1.0, 29.0, 29.999, 30.001, 45.0, None, None]
     for _ in range(n):
         yield {"gen": rnd.choice((4, 5)), "mode": "api",
                "pattern": [rnd.choice(delays) for _ in range(N)]}
-    m = 60 if tier == "quick" else 3000
+    m = 60 if tier == "quick" else 15000
     for _ in range(m):
         I = rnd.choice([10.0, 60.0, 300.0, 7.5])
         W = rnd.choice([I + 1.0, I * 1.5, I + 30.0, I * 0.5, 2 * I + 0.25])
